@@ -20,14 +20,18 @@ CONSTANTS acked,      \* set of acknowledged batches [id, base, cnt] (produce re
 Last(b) == b.base + b.cnt - 1
 Indexed == {o \in s3seg : o.base \in s3idx}
 InS3(b) == \E o \in Indexed : \E j \in 1..Len(o.batches) : o.batches[j].id = b.id /\ o.batches[j].base = b.base
-StoredOffsets == UNION {UNION {o.batches[j].base..Last(o.batches[j]) : j \in 1..Len(o.batches)} : o \in Indexed}
+Stored(x) == \E o \in Indexed : \E j \in 1..Len(o.batches) : o.batches[j].base <= x /\ x <= Last(o.batches[j])
 S3Last == IF Indexed = {} THEN -1 ELSE CHOOSE m \in {o.last : o \in Indexed} : \A o \in Indexed : o.last <= m
 
 C01_AckedDurable == \A b \in acked : InS3(b)
 
 C02_Unique == \A a, b \in acked : a.id # b.id => (Last(a) < b.base \/ Last(b) < a.base)
 C02_Monotone == ~nextRegressed
-C02_NoGap == \A a, b \in acked : Last(a) < b.base => \A o \in (Last(a)+1)..(b.base-1) : o \in StoredOffsets
+\* no hole between two acknowledged batches: a hole would start right after the end of a stored batch (or of a itself), so only
+\* those offsets need to be looked at (a batch may claim a million offsets)
+StoredEnds == UNION {{Last(o.batches[j]) + 1 : j \in 1..Len(o.batches)} : o \in Indexed}
+C02_NoGap == \A a, b \in acked : Last(a) < b.base =>
+                \A e \in StoredEnds \cup {Last(a) + 1} : (Last(a) < e /\ e < b.base) => Stored(e)
 C02_BaseIsStored == \A b \in acked : \A o \in Indexed : \A j \in 1..Len(o.batches) : o.batches[j].id = b.id => o.batches[j].base = b.base
 
 C05_Monotone == ~hwRegressed
